@@ -66,8 +66,12 @@ ASSUMPTIONS = [
     "dictdiffer.diff/patch are environment: modelled for flat dicts with tuple keys and validated here against "
     "the installed library (0.10.x) on every run",
     "a value that differs from another only in HashInfo.obj_name (eq=False, a label) is the SAME value: merging never "
-    "treats it as a change and may return either label; through merge() all entries of a store carry that store's hash "
-    "name, so a hash-name-only difference is reachable on _merge only",
+    "treats it as a change and may return either label",
+    "mixed-algorithm listings: in an md5 or sha256 store every entry keeps its OWN hash name (HashInfo.from_dict), so an "
+    "md5-named .dir may list sha256 / etag entries and two entries may differ in the hash name only - generated and "
+    "judged; in a legacy md5-dos2unix store Tree.load forces hash_name='md5-dos2unix' and reads the value from the "
+    "record's md5 field, so a sha256/etag record loads with value None (clean-code behaviour of the legacy loader, "
+    "C20/C03 ground): such records are not generated for that store",
     "merge(): listings are planted as directory objects; an md5 store loads only {md5, relpath} records "
     "(HashInfo.from_dict rejects extra fields - ValueError, C20's subject), records with size/isexec are exercised "
     "through an md5-dos2unix store; a missing object is FileNotFoundError (model: LoadError), not judged",
@@ -890,11 +894,32 @@ def gen_tree_universe(rng):
     return ks
 
 
-def tree_tables(mode):
+def tree_tables(mode, table=None):
+    """class -> (hash value, size, isexec, hash name) of the entries of a listing"""
     h = [impl.md5hex(bytes([65 + i])) for i in range(4)]
-    if mode == "md5":
-        return [(h[0], None, False), (h[1], None, False), (h[2], None, False)]
-    return [(h[0], 1, False), (h[0], 1, True), (h[1], 2, False), (h[2], None, False)]
+    if table == "mixed":
+        # a listing named by an md5 identifier whose entries are hashed otherwise (what build(..., name="sha256")
+        # or a cloud import with etags produces), next to md5 entries; class 3 differs from class 0 by the NAME only
+        import hashlib
+
+        s = [hashlib.sha256(bytes([65 + i])).hexdigest() for i in range(2)]
+        return [(h[0], None, False, "md5"), (s[0], None, False, "sha256"), (s[1], None, False, "sha256"),
+                (h[0], None, False, "sha256"), ("etag-1-" + h[1][:8], None, False, "etag"),
+                ("etag-2-" + h[2][:8], None, False, "etag")]
+    if mode != "md5-dos2unix":
+        return [(h[0], None, False, "md5"), (h[1], None, False, "md5"), (h[2], None, False, "md5")]
+    return [(h[0], 1, False, "md5"), (h[0], 1, True, "md5"), (h[1], 2, False, "md5"), (h[2], None, False, "md5")]
+
+
+def canon_named(entries):
+    """independent canonical encoder of a listing with per-entry hash names: entries = [(relpath, name, value)];
+    records sorted by the relpath string, json.dumps(sort_keys), nothing of Tree involved"""
+    lst = sorted(({name: value, "relpath": rp} for rp, name, value in entries), key=lambda d: d["relpath"])
+    return json.dumps(lst, sort_keys=True).encode("utf-8")
+
+
+def oid_named(entries):
+    return impl.md5hex(canon_named(entries)) + ".dir"
 
 
 def listing_bytes(ks, cells, table, rng=None):
@@ -902,8 +927,8 @@ def listing_bytes(ks, cells, table, rng=None):
     for k, c in zip(ks, cells):
         if not c:
             continue
-        hx, size, isexec = table[c - 1]
-        rec = {"md5": hx, "relpath": "/".join(k)}
+        hx, size, isexec, hname = table[c - 1]
+        rec = {hname: hx, "relpath": "/".join(k)}
         if size is not None:
             rec["size"] = size
         if isexec:
@@ -922,7 +947,7 @@ def run_tree_case(ctx, case):
 
     ks = [tuple(k) for k in case["keys"]]
     mode = case["mode"]
-    table = tree_tables(mode)
+    table = tree_tables(mode, case.get("table"))
     # one store per mode for the whole run: objects are named by content, every case (re)plants the
     # objects it uses, the identifiers of "missing" objects are never planted
     store = os.path.join(ctx.tmpdir(), "c19-store-" + mode)
@@ -939,7 +964,7 @@ def run_tree_case(ctx, case):
             names[who] = None
             continue
         data = listing_bytes(ks, cells, table, ctx.rng if case.get("shuffle") else None)
-        oid = impl.dir_oid([("/".join(k), table[c - 1][0]) for k, c in zip(ks, cells) if c])
+        oid = oid_named([("/".join(k), table[c - 1][3], table[c - 1][0]) for k, c in zip(ks, cells) if c])
         if who in case.get("missing", []):
             oid = impl.md5hex(b"missing-" + who.encode()) + ".dir"  # an identifier nothing is stored under
         elif oid in objs and objs[oid] != list(cells):
@@ -950,8 +975,8 @@ def run_tree_case(ctx, case):
         if who not in case.get("missing", []):
             if who in case.get("corrupt", {}):
                 impl.plant(store, oid, case["corrupt"][who].encode())
-            elif case.get("route") == "save" and oid == impl.dir_oid(
-                    [("/".join(k), table[c - 1][0]) for k, c in zip(ks, cells) if c]):
+            elif case.get("route") == "save" and oid == oid_named(
+                    [("/".join(k), table[c - 1][3], table[c - 1][0]) for k, c in zip(ks, cells) if c]):
                 # construction route: the listing is built in memory (Tree.add), digested and saved the way
                 # DVC saves a tree (add_update_tree), instead of planting canonical bytes
                 from dvc_data.hashfile.db import add_update_tree
@@ -966,8 +991,9 @@ def run_tree_case(ctx, case):
                     tr = Tree()
                     for k, c in zip(ks, cells):
                         if c:
-                            hx, size, isexec = table[c - 1]
-                            tr.add(k, Meta(size=size, isexec=isexec), HashInfo(mode, hx))
+                            hx, size, isexec, hname = table[c - 1]
+                            tr.add(k, Meta(size=size, isexec=isexec),
+                                   HashInfo(mode if hname == "md5" and mode == "md5-dos2unix" else hname, hx))
                     tr.digest(with_meta=mode != "md5")
                     tr.oid = oid
                     add_update_tree(writer, tr)
@@ -988,8 +1014,9 @@ def run_tree_case(ctx, case):
         got = {}
         bad_val = False
         for key, meta, hi in m:
+            hname = None if hi is None else ("md5" if hi.name == "md5-dos2unix" and mode == "md5-dos2unix" else hi.name)
             idt = (None if hi is None else hi.value, None if meta is None else meta.size,
-                   False if meta is None else meta.isexec)
+                   False if meta is None else meta.isexec, hname)
             got[key] = table.index(idt) if idt in table else 777
             bad_val = bad_val or idt not in table
         try:
@@ -1021,26 +1048,26 @@ def run_tree_case(ctx, case):
             if ref is not None:
                 # independent canonical encoder (lib.impl: records sorted by the relpath STRING, json.dumps,
                 # md5) - nothing of Tree is used to compute what the identifier must be
-                entries = [("/".join(k), table[c][0]) for k, c in ref.items()]
-                want = impl.dir_oid(entries)
+                entries = [("/".join(k), table[c][3], table[c][0]) for k, c in ref.items()]
+                want = oid_named(entries)
                 if res[2] != want or res[3] != want or res[4] != "md5":
                     problems.append(("C19:wrong-identifier",
                                      f"merged listing has identifier {res[4]}:{res[2]} (oid {res[3]}), the canonical "
                                      f"identifier of the three-way merge is md5:{want}"))
-                if res[5] != impl.canon_listing(entries):
+                if res[5] != canon_named(entries):
                     problems.append(("C19:non-canonical-object",
                                      "the serialised object that comes with the merged tree (tree.fs/tree.path) is not the "
                                      f"canonical listing of its content: {res[5][:300]!r}"))
                 # a merge whose result IS one of the stored inputs must return that object's identifier
                 for who in ("o", "t", "a"):
-                    if case[who] is not None and dict_of(ks, case[who]) == ref and names[who] == impl.dir_oid(entries) \
+                    if case[who] is not None and dict_of(ks, case[who]) == ref and names[who] == want \
                             and res[3] != names[who]:
                         problems.append(("C19:fast-forward-renamed",
                                          f"the merged listing equals the stored listing {names[who]} but is returned as "
                                          f"{res[3]}"))
                         break
     # ---- model input
-    hexs = clist([cpair(cN(i), cbytes(table[i][0])) for i in range(len(table))])
+    hexs = clist([cpair(cN(i), cpair(cbytes(table[i][3]), cbytes(table[i][0]))) for i in range(len(table))])
     objs_t = clist([cpair(cbytes(oid), ccells(cells)) for oid, cells in objs.items()])
     term = (f"({ckeys(ks)}, {hexs}, {objs_t}, {copt(names['a'], cbytes)}, {cbytes(names['o'])}, "
             f"{cbytes(names['t'])}, {cpol(pol)})")
@@ -1078,7 +1105,9 @@ def tree_item(ctx, case):
     both = a != o and a != t
     ctx.case(case, both or res[0] != "ok")
     ks = [tuple(k) for k in case["keys"]]
-    table = tree_tables(case["mode"])
+    table = tree_tables(case["mode"], case.get("table"))
+    if case.get("table") == "mixed":
+        dim("merge()|value:listing-with-sha256/etag-entries-next-to-md5(md5-named .dir)")
     ex = {"store:" + case["mode"], "route:" + ("Tree.add+digest+add_update_tree" if case.get("route") == "save"
                                                 else "planted-bytes" + ("-shuffled-records" if case.get("shuffle") else "")),
           "outcome:" + ("ok" if res[0] == "ok" else res[2])}
@@ -1089,8 +1118,10 @@ def tree_item(ctx, case):
         ex.add("flag:ancestor_info=None")
     for k in ks:
         cl = {d[k] for d in (a, o, t) if k in d}
-        if len(cl) > 1 and len({table[c][0] for c in cl}) == 1:
+        if len(cl) > 1 and len({(table[c][0], table[c][3]) for c in cl}) == 1:
             ex.add("value:entries-differ-in-meta-only")
+        if any(table[c1][0] == table[c2][0] and table[c1][3] != table[c2][3] for c1 in cl for c2 in cl):
+            ex.add("value:entries-differ-in-hash-name-only(md5 vs sha256)")
     for nm in ("a", "o", "t"):
         if case[nm] is not None and not any(case[nm]):
             ex.add("id:input-oid-is-the-empty-listing's")
@@ -1157,6 +1188,21 @@ AUDIT_TREE = [
      "a": [1, 2, 3, 1, 0], "o": [1, 0, 3, 2, 0], "t": [2, 2, 3, 1, 3], "pol": ["add", "remove", "change"]},
     {"mode": "md5-dos2unix", "keys": [("imgs", "a"), ("imgs_raw", "a"), ("imgs.bak",), ("Data", "f"), ("data",)],
      "a": [1, 0, 3, 4, 0], "o": [1, 2, 3, 4, 0], "t": [1, 0, 3, 4, 1], "pol": [], "route": "save"},
+    # mixed-algorithm listings (md5-named .dir, entries keyed sha256 / etag next to md5; cells: 1 md5, 2-3 sha256,
+    # 4 sha256 with the VALUE of cell 1, 5-6 etag): lost change, conflict, both add, hash-name-only change
+    {"mode": "md5", "table": "mixed", "keys": [("data", "a.bin"), ("data", "b.bin"), ("readme",), ("data", "sub", "c.bin")],
+     "a": [2, 2, 1, 0], "o": [3, 2, 1, 0], "t": [2, 2, 1, 3], "pol": ["add", "remove", "change"]},
+    {"mode": "md5", "table": "mixed", "keys": [("data", "a.bin"), ("readme",), ("extra",)],
+     "a": [2, 1, 0], "o": [3, 1, 0], "t": [4, 1, 5], "pol": ["add", "remove", "change"]},
+    {"mode": "sha256", "table": "mixed", "keys": [("data", "a.bin"), ("data", "d.bin"), ("data", "sub", "c.bin"), ("e",)],
+     "a": [2, 0, 0, 5], "o": [2, 3, 0, 5], "t": [2, 0, 2, 5], "pol": None, "route": "save"},
+    {"mode": "sha256", "table": "mixed", "keys": [("e",), ("k",)], "a": [5, 2], "o": [6, 2], "t": [5, 3],
+     "pol": ["change"], "verify": True},
+    {"mode": "md5", "table": "mixed", "keys": [("e",), ("k",)], "a": [5, 2], "o": [6, 2], "t": [0, 2],
+     "pol": ["change", "remove"]},
+    {"mode": "md5", "table": "mixed", "keys": [("f",), ("k",)], "a": [1, 2], "o": [4, 2], "t": [1, 2], "pol": ["change"]},
+    {"mode": "md5", "table": "mixed", "keys": [("f",), ("k",)], "a": [1, 2], "o": [4, 2], "t": [2, 2], "pol": ["change"],
+     "route": "save"},
     # no ancestor_info at all / a falsy HashInfo(), against an empty side
     {"mode": "md5", "keys": [("a",), ("b",)], "a": None, "o": [1, 0], "t": [0, 0], "pol": None},
     {"mode": "md5", "keys": [("a",), ("b",)], "a": None, "o": [1, 0], "t": [0, 2], "pol": ["add"], "empty_info": True,
@@ -1173,7 +1219,7 @@ def audit_tree_cases():
     # a listing whose identifier ends in the hex digit d (".dir" is a SUFFIX, not a character set to strip)
     h = tree_tables("md5")
     for i in range(4000):
-        if impl.dir_oid([(f"f{i}", h[0][0])])[:-4].endswith("dd"):
+        if oid_named([(f"f{i}", "md5", h[0][0])])[:-4].endswith("dd"):
             out.append({"stream": "tree", "mode": "md5", "keys": [(f"f{i}",), ("g",)], "a": [0, 2], "o": [0, 2],
                         "t": [1, 0], "pol": ["add", "remove"], "oid_tail_d": True})
             break
@@ -1195,12 +1241,15 @@ def stream_tree(ctx, n):
     for c in grid_cases("tree"):
         items.append(tree_item(ctx, dict(c, mode="md5", route="save" if len(items) % 3 == 0 else "plant")))
     for _ in range(n):
-        mode = ctx.rng.choice(["md5", "md5-dos2unix"])
-        nv = len(tree_tables(mode))
+        mode = ctx.rng.choice(["md5", "md5", "md5-dos2unix", "md5-dos2unix", "sha256"])
+        tbl = "mixed" if mode != "md5-dos2unix" and (mode == "sha256" or ctx.rng.random() < 0.4) else None
+        nv = len(tree_tables(mode, tbl))
         ks = gen_tree_universe(ctx.rng)
         a, o, t = gen_triple(ctx.rng, len(ks), nv)
         case = {"stream": "tree", "mode": mode, "keys": ks, "a": a, "o": o, "t": t, "pol": gen_pol(ctx.rng, a, o, t),
                 "shuffle": ctx.rng.random() < 0.5}
+        if tbl:
+            case["table"] = tbl
         if ctx.rng.random() < 0.3:
             case["route"] = "save"
         if ctx.rng.random() < 0.25:
